@@ -243,6 +243,113 @@ theorem filer_ttl_rounds_down_witness : ¬ ((90 : Int) ≤ 60 * (volMinutes 90 :
 theorem filer_ttl_covered_partial (s : Int) (h0 : 0 < s) (h1 : s < 2147483648) (hx : exactUnit s) :
     s ≤ 60 * (volMinutes s : Int) := (covered_iff s h0 h1).2 hx
 
+/-! ### Filer: a visible entry never points at expired data -/
+
+/-- `Filer.FindEntry` / listing: an entry is visible exactly while `now ≤ Crtime + TtlSec` (or it has no TTL);
+    Mtime plays no role, so appends and touches do not extend its life -/
+theorem entry_visible_iff (e : FEntry) (nowNs : Nat) :
+    entryVisible e nowNs = true ↔ e.ttlSec = 0 ∨ nowNs ≤ (e.crtime + e.ttlSec) * nsPerSec := by
+  simp [entryVisible]
+
+/- FULL-STRENGTH statement (false because of finding sec2ttl/rounds-down):
+     every chunk of a visible entry, stored with ttl string SecondsToTTL(TtlSec), is readable. -/
+
+/-- witness: entry with TtlSec = 90 created at second 1000, chunk in a "1m" volume: at second 1070 the entry is
+    visible and its chunk is gone -/
+theorem visible_entry_expired_chunk_witness :
+    entryVisible ⟨90, 1000, 1000, [⟨⟨1, 1⟩, 1000 * nsPerSec⟩]⟩ (1070 * nsPerSec) = true ∧
+    chunkReadable ⟨⟨1, 1⟩, 1000 * nsPerSec⟩ (1070 * nsPerSec) = false := by decide
+
+/-- partial: if the chunk's volume TTL covers the entry's TtlSec and the chunk was written less than `δ` seconds
+    before the entry's Crtime (or any time after it — appends), then whenever the entry is still visible `δ` seconds
+    from now, the chunk is readable now. (δ = 0: chunk written after Crtime, same instant.) -/
+theorem visible_chunk_readable_partial (e : FEntry) (c : Chunk) (nowNs δ : Nat)
+    (hc : Covers e.ttlSec c) (hskew : e.crtime * nsPerSec < c.appendNs + δ * nsPerSec)
+    (hvis : entryVisible e (nowNs + δ * nsPerSec) = true) : chunkReadable c nowNs = true := by
+  unfold chunkReadable
+  by_cases hm : ttlMinutes c.ttl = 0
+  · exact ttl_window_unbounded _ _ (Or.inr (Or.inl hm))
+  · have he : c.ttl ≠ emptyTTL := by intro h; rw [h] at hm; exact hm (by decide)
+    have hflag : (chunkNeedle c).hasTtl = true := by simp [chunkNeedle, he]
+    rw [ttl_window (chunkNeedle c) nowNs hflag hm rfl]
+    obtain ⟨h0, h1⟩ := hc
+    have hs : e.ttlSec ≠ 0 := fun h => hm (h0 h)
+    have hle : e.ttlSec ≤ 60 * ttlMinutes c.ttl := by rcases h1 with h | h; exact (hm h).elim; exact h
+    have hv := (entry_visible_iff e _).1 hvis
+    simp only [chunkNeedle, nsPerSec] at *
+    omega
+
+/-- the chunk TTL the filer asks for (`SecondsToTTL(TtlSec)`, regenerated from the source, read by `ReadTTL`)
+    covers TtlSec whenever TtlSec is an exact unit multiple — the complement is finding sec2ttl/rounds-down -/
+theorem filer_assign_covers_partial (s : Nat) (c : Chunk) (h0 : 0 < s) (h1 : s < 2147483648)
+    (hx : exactUnit (s : Int)) (hc : c.ttl = (readTTL (SwV.Gen.C09.SecondsToTTL (s : Int)).toList).1) :
+    Covers s c := by
+  have h := (covered_iff (s : Int) (by omega) (by omega)).2 hx
+  have hm : volMinutes (s : Int) = ttlMinutes c.ttl := by rw [hc]; rfl
+  rw [hm] at h
+  exact ⟨fun hs => by omega, Or.inr (by omega)⟩
+
+theorem finv_init (δ nowNs : Nat) : FInv δ [] nowNs := by intro ke hke; cases hke
+
+theorem finv_mono (δ : Nat) (st : FStore) (a b : Nat) (h : FInv δ st a) (hab : a ≤ b) : FInv δ st b :=
+  fun ke hke => ⟨(h ke hke).1, Nat.le_trans (h ke hke).2 hab⟩
+
+/-- FindEntry and listing only delete entries -/
+theorem finv_find (δ : Nat) (st : FStore) (nowNs k : Nat) (h : FInv δ st nowNs) : FInv δ (ffind st nowNs k).2 nowNs :=
+  fun ke hke => h ke (ffind_store_subset st nowNs k ke hke)
+
+theorem finv_list (δ : Nat) (st : FStore) (nowNs : Nat) (h : FInv δ st nowNs) : FInv δ (flist st nowNs) nowNs :=
+  fun ke hke => h ke (List.mem_filter.1 hke).1
+
+/-- CreateEntry (create, or update-after-create: append / touch / new TtlSec) preserves the invariant when the
+    submitted entry's Crtime is not in the future and each of its chunks is covered for the submitted TtlSec and is
+    either a chunk of the still-visible old entry (kept) or was written less than `δ` seconds ago -/
+theorem finv_put (δ : Nat) (st : FStore) (nowNs k : Nat) (e : FEntry) (hinv : FInv δ st nowNs)
+    (hcr : e.crtime * nsPerSec ≤ nowNs)
+    (hch : ∀ c ∈ e.chunks, Covers e.ttlSec c ∧
+      ((∃ o, (ffind st nowNs k).1 = some o ∧ c ∈ o.chunks) ∨ nowNs < c.appendNs + δ * nsPerSec)) :
+    FInv δ (fput st nowNs k e) nowNs := by
+  have hsub := ffind_store_subset st nowNs k
+  have hold := ffind_some st nowNs k
+  unfold fput
+  generalize ffind st nowNs k = r at hch hsub hold ⊢
+  obtain ⟨old, st1⟩ := r
+  simp only [] at hch hsub hold ⊢
+  intro ke hke
+  simp only [List.mem_cons, List.mem_filter] at hke
+  rcases hke with rfl | ⟨hm, _⟩
+  · cases old with
+    | none =>
+      refine ⟨fun c hc => ?_, hcr⟩
+      obtain ⟨h1, h2⟩ := hch c hc
+      refine ⟨h1, ?_⟩
+      rcases h2 with ⟨o, ho, _⟩ | h2
+      · cases ho
+      · simp only [nsPerSec] at *; omega
+    | some o =>
+      obtain ⟨⟨kn, hkn, rfl⟩, _⟩ := hold o rfl
+      obtain ⟨go, gcr⟩ := hinv kn hkn
+      refine ⟨fun c hc => ?_, gcr⟩
+      obtain ⟨h1, h2⟩ := hch c hc
+      refine ⟨h1, ?_⟩
+      rcases h2 with ⟨o', ho', hc'⟩ | h2
+      · cases ho'
+        exact (go c hc').2
+      · show kn.2.crtime * nsPerSec < c.appendNs + δ * nsPerSec
+        simp only [nsPerSec] at *; omega
+  · exact hinv ke (hsub ke hm)
+
+/-- MAIN (filer): along every history that keeps `FInv` (create at t0 with TtlSec, later updates/appends that keep old
+    chunks — `finv_put`, `finv_find`, `finv_list`, `finv_mono`), an entry that FindEntry still returns `δ` seconds
+    from now only has chunks that are readable now. -/
+theorem visible_never_points_at_expired (δ : Nat) (st : FStore) (nowNs k : Nat) (e : FEntry)
+    (hinv : FInv δ st nowNs) (hf : (ffind st (nowNs + δ * nsPerSec) k).1 = some e) :
+    ∀ c ∈ e.chunks, chunkReadable c nowNs = true := by
+  obtain ⟨⟨kn, hkn, rfl⟩, hv⟩ := ffind_some st _ k e hf
+  intro c hc
+  obtain ⟨g, _⟩ := hinv kn hkn
+  exact visible_chunk_readable_partial kn.2 c nowNs δ (g c hc).1 (g c hc).2 hv
+
 /-! ### Bridges to the regenerated source facts (T1) -/
 
 theorem bridge_ttl_minutes (c u : Nat) (hc : c < 256) :
@@ -256,9 +363,14 @@ theorem bridge_constants :
 theorem bridge_pins :
     SwV.Gen.C09.src_readNeedle = "f3764387cee126f8" ∧ SwV.Gen.C09.src_expired = "cf47f37966c26e15" ∧
     SwV.Gen.C09.src_expiredLongEnough = "95aaed9accc2f78c" ∧ SwV.Gen.C09.src_VisitNeedle = "93d511a40ba8dc87" ∧
-    SwV.Gen.C09.src_copyDataBasedOnIndexFile = "fb8c6ae27b972798" := ⟨rfl, rfl, rfl, rfl, rfl⟩
+    SwV.Gen.C09.src_copyDataBasedOnIndexFile = "fb8c6ae27b972798" ∧
+    SwV.Gen.C09.src_FindEntry = "97a4529ec5f4b108" ∧ SwV.Gen.C09.src_doListDirectoryEntries = "8c89010a0f6ddc2d" ∧
+    SwV.Gen.C09.src_UpdateEntry = "42f0d53b6e3a8052" := ⟨rfl, rfl, rfl, rfl, rfl, rfl, rfl, rfl⟩
 
 /-! ### non-vacuity -/
+example : Covers 3600 ⟨⟨1, 2⟩, 5⟩ := ⟨fun h => (by cases h), Or.inr (by decide)⟩
+example : FGood 0 ⟨3600, 10, 10, [⟨⟨1, 2⟩, 10 * nsPerSec + 1⟩]⟩ := by
+  intro c hc; simp at hc; subst hc; exact ⟨⟨fun h => (by cases h), Or.inr (by decide)⟩, by decide⟩
 example : exactUnit 7200 := by unfold exactUnit; omega
 example : Good ⟨1, 2⟩ 100 ⟨true, ⟨1, 2⟩, true, 100, 100 * nsPerSec + 5⟩ := by
   refine ⟨fun _ => ⟨rfl, by decide, by decide⟩, by decide, by decide, fun h => by cases h⟩
